@@ -27,7 +27,8 @@ broadcast use {num_bigint::of_int_bi, num_bigint::bi_of_int};
 
 // SPEC: the value of a rebuilt-environment expression when every variable evaluates to what `rho` says:
 // a variable is looked up, nil and other constants denote themselves, (c x y) is the pair of the values
-pub open spec fn is_cons_op(b: BodyForm) -> bool { b matches BodyForm::Value(SExp::Atom(_, n)) && n@ == "c".spec_bytes() }
+// the cons operator is spelled by its opcode: a head given by name would be captured by a user function called c (finding F33)
+pub open spec fn is_cons_op(b: BodyForm) -> bool { b matches BodyForm::Value(SExp::Atom(_, n)) && n@.len() == 1 && n@[0] == 4u8 }
 pub open spec fn bf_value(e: BodyForm, rho: spec_fn(Seq<u8>) -> Option<Tree>) -> Option<Tree>
     decreases e
 {
